@@ -146,7 +146,7 @@ static int Record(const vh::Args& args) {
       else op = { {"op", "UpdateFor"}, {"a", id(rng)}, {"b", 0}, {"s", subset()} };
       d.Apply(op);
       json ev = op; ev["e"] = op["op"]; ev.erase("op"); ev["obs"] = Observe(d.g, nIds, rng);
-      out << ev.dump() << "\n"; ++events;
+      out << ev.dump() << std::endl; ++events;
     }
     ++rep.cases;
   }
@@ -157,6 +157,6 @@ static int Record(const vh::Args& args) {
 
 int main(int argc, char** argv) {
   vh::Args args(argc, argv);
-  if (args.has("record")) return Record(args);
+  if (args.has("record")) return vh::RunRecorder(args.get("trace"), args.get("out"), [&]() { return Record(args); });
   return vh::Main(argc, argv, Replay);
 }
